@@ -288,8 +288,8 @@ func main() {
 	lb := &pipeLayer{addr: "B", accept: make(chan net.Conn, 16), peers: map[string]*pipeLayer{}, closed: make(chan struct{}), failAfter: -1}
 	la.peers["B"] = lb
 	lb.peers["A"] = la
-	tA := raft.NewNetworkTransport(la, 2, 300*time.Millisecond, io.Discard)
-	tB := raft.NewNetworkTransport(lb, 2, 300*time.Millisecond, io.Discard)
+	tA := raft.NewNetworkTransport(la, 2, 3*time.Second, io.Discard)
+	tB := raft.NewNetworkTransport(lb, 2, 3*time.Second, io.Discard)
 	defer tA.Close()
 	defer tB.Close()
 	// the same pair again with MsgpackUseNewTimeFormat on one or both ends (a rolling change of the
@@ -297,8 +297,8 @@ func main() {
 	ln := &pipeLayer{addr: "N", accept: make(chan net.Conn, 16), peers: map[string]*pipeLayer{}, closed: make(chan struct{}), failAfter: -1}
 	lm := &pipeLayer{addr: "M", accept: make(chan net.Conn, 16), peers: map[string]*pipeLayer{}, closed: make(chan struct{}), failAfter: -1}
 	ln.peers["B"], ln.peers["M"], la.peers["M"] = lb, lm, lm
-	tN := raft.NewNetworkTransportWithConfig(&raft.NetworkTransportConfig{Stream: ln, MaxPool: 2, Timeout: 300 * time.Millisecond, MsgpackUseNewTimeFormat: true})
-	tM := raft.NewNetworkTransportWithConfig(&raft.NetworkTransportConfig{Stream: lm, MaxPool: 2, Timeout: 300 * time.Millisecond, MsgpackUseNewTimeFormat: true})
+	tN := raft.NewNetworkTransportWithConfig(&raft.NetworkTransportConfig{Stream: ln, MaxPool: 2, Timeout: 3 * time.Second, MsgpackUseNewTimeFormat: true})
+	tM := raft.NewNetworkTransportWithConfig(&raft.NetworkTransportConfig{Stream: lm, MaxPool: 2, Timeout: 3 * time.Second, MsgpackUseNewTimeFormat: true})
 	defer tN.Close()
 	defer tM.Close()
 	// responder on B: script set per exchange
@@ -376,7 +376,7 @@ func main() {
 				recvOK = ok && aeEqual(r, req)
 			}
 			respOK := err == nil && reflect.DeepEqual(got, want)
-			fmt.Fprintf(w, "OT 0\n%d %d\n", b2i(recvOK), b2i(respOK))
+			fmt.Fprintf(w, "OT %d\n%d %d\n", 10+combo, b2i(recvOK), b2i(respOK))
 			st.Hist[fmt.Sprintf("append-entries-mixed-time-format-%d", combo)]++
 			st.Distinct++
 		case x < 45: // single AppendEntries
@@ -438,7 +438,7 @@ func main() {
 						if f.Error() != nil || f.Request().PrevLogEntry != uint64(i) || f.Response().LastLog != uint64(1000+i) {
 							okOrder = false
 						}
-					case <-time.After(2 * time.Second):
+					case <-time.After(30 * time.Second):
 						okOrder = false
 						return
 					}
@@ -456,7 +456,8 @@ func main() {
 			st.Distinct++
 		case x < 80: // votes, timeout-now
 			var recvOK, respOK bool
-			switch rng.Intn(3) {
+			sub := rng.Intn(3)
+			switch sub {
 			case 0:
 				req := &raft.RequestVoteRequest{RPCHeader: hdr(), Term: ru64(), Candidate: rbytes(), LastLogIndex: ru64(), LastLogTerm: ru64(), LeadershipTransfer: rng.Intn(2) == 0}
 				want := &raft.RequestVoteResponse{RPCHeader: hdr(), Term: ru64(), Peers: rbytes(), Granted: rng.Intn(2) == 0}
@@ -491,7 +492,7 @@ func main() {
 				recvOK = len(rec) == 1 && reflect.DeepEqual(rec[0], req)
 				respOK = err == nil && reflect.DeepEqual(got, want)
 			}
-			fmt.Fprintf(w, "OT 0\n%d %d\n", b2i(recvOK), b2i(respOK))
+			fmt.Fprintf(w, "OT %d\n%d %d\n", 1+sub, b2i(recvOK), b2i(respOK))
 			st.Hist["vote-prevote-timeoutnow"]++
 		case x < 90: // InstallSnapshot with a body
 			body := make([]byte, []int{0, 1, 100, 4096, 100000}[rng.Intn(5)])
